@@ -25,7 +25,7 @@ def check_dataset_oracle(R, ds, files, case, spec_rep, wf_rep, ids, payload_of, 
     m, s, p = ds["m"], ds["s"], ds["p"]
     used = L.used_minishards(ds, ids)
     bad_shards = {sh for sh, ms in used.items() if not L.is_initial_segment(ms)}
-    R.count("guard:" + ("prefix" if not bad_shards else "non-prefix"))
+    R.count("used-minishards:" + ("initial-segment" if not bad_shards else "with-holes"))
     for cid, rep in zip(list(ids) + list(extra_ids), spec_rep):
         got = L.spec_reply(rep)
         second = L.py_spec_fetch(files, m, s, p, ds["ie"], ds["de"], cid)
@@ -45,25 +45,17 @@ def check_dataset_oracle(R, ds, files, case, spec_rep, wf_rep, ids, payload_of, 
             R.count("spec:stored:found")
             continue
         sh, mi = L.ref_route(m, s, p, cid)
-        if sh in bad_shards and got == "absent":
-            R.count("spec:stored:absent-in-known-region")
-            R.known(L.FINDING_SLOT)
-        else:
-            R.violation("stored chunk not retrievable by the specification reader", case,
-                        {"id": cid, "shard": sh, "minishard": mi, "spec_fetch": got,
-                         "stored": payload_of[cid], "used_minishards": sorted(used.get(sh, []))})
+        R.violation("stored chunk not retrievable by the specification reader", case,
+                    {"id": cid, "shard": sh, "minishard": mi, "spec_fetch": got,
+                     "stored": payload_of[cid], "used_minishards": sorted(used.get(sh, []))})
     for name, parse_ok, slot_ok, disj_ok in wf_rep:
         name = name.decode()
         if not (parse_ok == "true" and disj_ok == "true"):
             R.violation("shard file violates the layout predicates (parse / ranges / disjointness)",
                         case, {"file": name, "parse": str(parse_ok), "disjoint": str(disj_ok)})
         elif slot_ok != "true":
-            sh = int(name.split(".")[0], 16)
-            if sh in bad_shards:
-                R.count("wf:slot-misplaced-in-known-region")
-                R.known(L.FINDING_SLOT)
-            else:
-                R.violation("minishard index not at its minishard's slot", case, {"file": name})
+            R.violation("minishard index not at its minishard's slot", case,
+                        {"file": name, "used_minishards": {str(k): sorted(v) for k, v in used.items()}})
         else:
             R.count("wf:ok")
     want_names = {L.ref_name(s, sh) for sh in used}
@@ -127,7 +119,8 @@ def run_datasets(R, datasets):
 
 
 def witness_dataset():
-    """The recorded witness of the slot-placement finding: 3x4x2 grid, chunk
+    """The witness of the former slot-placement defect (repaired in /repo
+    49f2991), kept as the first dataset of every run: 3x4x2 grid, chunk
     size 8, minishard_bits 2, shard_bits 2, preshift 0, every chunk stored;
     shard 2 holds identifiers 8 and 10, i.e. minishards {0, 2}."""
     g = (3, 4, 2)
